@@ -207,7 +207,7 @@ pub mod wal {
         /// Drops the handle without the final force of `Drop` (the process "dies").
         pub fn forget(mut self) {
             if let Some(w) = self.0.take() {
-                std::mem::forget(w);
+                w.verif_abandon();
             }
         }
     }
